@@ -85,7 +85,8 @@ def handle : List String → Option String
       if w.startsWith "RI" then GoSup.Spec.C07.LEv.runInv (num w 2)
       else if w.startsWith "RR" then .runRet (num w 2)
       else if w.startsWith "SC" then .stopCall (num w 2)
-      else if w.startsWith "SR" then .stopRet (num w 2)
+      else if w.startsWith "SR" then
+        .stopRet (num w 2) (match w.splitOn ":" with | [_, g] => g.toNat? | _ => none)
       else .other
     some (toString (GoSup.Spec.C07.liftHolds hung t))
   | _ => none
